@@ -162,6 +162,7 @@ class SimRaw(io.RawIOBase):
         self.pos = len(data) if append else 0
         self._append = append
         self.name = path
+        self._fd = None
 
     def close(self):
         if not self.closed:
@@ -183,7 +184,12 @@ class SimRaw(io.RawIOBase):
         return True
 
     def fileno(self):
-        raise io.UnsupportedOperation('fileno')
+        # a descriptor number nothing else uses (fsync / fstat on it are
+        # answered by the simulated disk)
+        if self._fd is None:
+            self._fd = self.fs.FD_BASE + 500_000 + len(self.fs.open_fds)
+            self.fs.open_fds[self._fd] = self
+        return self._fd
 
     def isatty(self):
         return False
@@ -287,6 +293,7 @@ class SimFS:
         self.bufsize = 8192
         self.handles = []
         self.fds = {}
+        self.open_fds = {}
         self.clock = None       # SimClock: file times come from it
         self.mtimes = {}
         self.leaked_closed = 0
@@ -363,6 +370,10 @@ class SimFS:
                      bool(flags & os.O_APPEND))
         return self._wrap(raw, mode, buffering, encoding, errors, newline,
                           readable, writable)
+
+    def link(self, existing, alias):
+        """A second directory entry for the same inode (hard link)."""
+        self.files[alias] = self.files[existing]
 
     def put(self, path, data):
         self.files[path] = bytearray(data)
@@ -454,6 +465,48 @@ def _sim_open(file, *a, **k):
     return _real_open(file, *a, **k)
 
 
+_real_os_fsync = os.fsync
+_real_os_fdatasync = getattr(os, 'fdatasync', None)
+_real_os_fstat = os.fstat
+_real_os_chmod = os.chmod
+_real_os_utime = os.utime
+_real_os_lstat = os.lstat
+
+
+def _is_sim_fd(fd):
+    fs = _Installed.fs
+    return fs is not None and isinstance(fd, int) and (
+        fd in fs.open_fds or fd in fs.fds)
+
+
+def _sim_os_fsync(fd):
+    if _is_sim_fd(fd):
+        return None
+    return _real_os_fsync(fd)
+
+
+def _sim_os_fstat(fd):
+    fs = _Installed.fs
+    if _is_sim_fd(fd):
+        raw = fs.open_fds.get(fd)
+        path = raw.path if raw is not None else fs.fds[fd][0]
+        return _sim_os_stat(path)
+    return _real_os_fstat(fd)
+
+
+def _sim_noop_for_sim_paths(real):
+    def wrapper(path, *a, **k):
+        if _Installed.fs is not None and _is_sim(path):
+            if os.fspath(path) not in _Installed.fs.files and \
+                    os.fspath(path).rstrip('/') != SIM_ROOT.rstrip('/'):
+                raise FileNotFoundError(
+                    errno.ENOENT, 'No such file or directory',
+                    os.fspath(path))
+            return None
+        return real(path, *a, **k)
+    return wrapper
+
+
 _real_os_open = os.open
 _real_os_close = os.close
 _real_os_stat = os.stat
@@ -524,6 +577,13 @@ def install_fs(fs):
     os.open = _sim_os_open
     os.close = _sim_os_close
     os.stat = _sim_os_stat
+    os.lstat = _sim_os_stat
+    os.fsync = _sim_os_fsync
+    if _real_os_fdatasync is not None:
+        os.fdatasync = _sim_os_fsync
+    os.fstat = _sim_os_fstat
+    os.chmod = _sim_noop_for_sim_paths(_real_os_chmod)
+    os.utime = _sim_noop_for_sim_paths(_real_os_utime)
     os.remove = os.unlink = _sim_os_remove
     os.replace = os.rename = _sim_os_replace
 
@@ -535,6 +595,13 @@ def uninstall_fs():
     os.open = _real_os_open
     os.close = _real_os_close
     os.stat = _real_os_stat
+    os.lstat = _real_os_lstat
+    os.fsync = _real_os_fsync
+    if _real_os_fdatasync is not None:
+        os.fdatasync = _real_os_fdatasync
+    os.fstat = _real_os_fstat
+    os.chmod = _real_os_chmod
+    os.utime = _real_os_utime
     os.remove = _real_os_remove
     os.unlink = _real_os_unlink
     os.replace = _real_os_replace
